@@ -4,6 +4,7 @@ import Lattigo.Proofs.CKKSAlign
 import Lattigo.Proofs.CKKSPhase
 import Lattigo.Proofs.CKKSDefects
 import Lattigo.Proofs.CKKSFixedPoint
+import Lattigo.Props.C06Ring
 /-!
 # C06 — CKKS evaluation: scale / level bookkeeping and phase semantics  (property theorems)
 
